@@ -43,6 +43,11 @@ public:
         // The whole propagation algorithm is under the lock in order to ensure correctness
         // in case of concurrent state changes at the different levels of the context tree.
         threads_list_mutex_type::scoped_lock lock(my_threads_list_mutex);
+        // A thread that binds a context while the propagation is underway detects it by the epoch mismatch and
+        // re-reads its parent's state under the_context_state_propagation_mutex (see bind_to_impl). The propagation
+        // must hold the same mutex, otherwise that re-read can happen before the parent is updated and the newly
+        // bound context misses the state change.
+        context_state_propagation_mutex_type::scoped_lock propagation_lock(the_context_state_propagation_mutex);
         // TODO: consider to use double-check idiom
         if ((src.*mptr_state).load(std::memory_order_relaxed) != new_state) {
             // Another thread has concurrently changed the state. Back down.
